@@ -420,6 +420,25 @@ impl RepRun {
         ];
         let vals = ["", "v", "w", "\u{1F600}\u{7}", "x y"];
         let wild = self.wild && rng.chance(1, 3);
+        if wild && rng.chance(1, 3) {
+            // a batch that touches a task before it exists, creates it, and goes on: every operation
+            // must act as if applied one at a time (the ones on the missing task change nothing)
+            let cur = self.tasks();
+            let absent: Vec<u64> = (1..=8u64).filter(|n| !cur.contains_key(&uuid_of(*n as u128))).collect();
+            if let Some(un) = absent.first().cloned() {
+                let mut parts = Vec::new();
+                if rng.chance(1, 2) {
+                    parts.push(format!("delete {} {{}}", un));
+                }
+                parts.push(format!("update {} {} - {} 100 0", un, enc_str("k"), enc_str(*rng.pick(&vals))));
+                parts.push(format!("create {}", un));
+                parts.push(format!("update {} {} - {} 101 0", un, enc_str(*rng.pick(&["k", "status", "description"])), enc_str(*rng.pick(&["pending", "v", "w"]))));
+                if rng.chance(1, 2) {
+                    parts.push(format!("update {} {} - {} 102 0", un, enc_str("description"), enc_str("x y")));
+                }
+                return format!("X {} ; {}", parts.len(), parts.join(" ; "));
+            }
+        }
         let n = 1 + rng.below(5);
         let mut view: HashMap<Uuid, Option<TaskMap>> = HashMap::new();
         let cur = self.tasks();
@@ -477,7 +496,12 @@ impl RepRun {
                     }
                     None => None,
                 };
-                let old = if wild && rng.chance(1, 3) { Some("bogus".to_string()) } else { old };
+                // (untrue previous values: a made-up one, or "it already had this value")
+                let old = if wild && rng.chance(1, 3) {
+                    if rng.chance(1, 2) { Some("bogus".to_string()) } else { v.clone() }
+                } else {
+                    old
+                };
                 parts.push(format!(
                     "update {} {} {} {} {} {}",
                     un,
